@@ -36,7 +36,8 @@ CONSTANTS
     UnlimCounts,       \* R: row counts enumerated under an unlimited namespace
     RowLens,           \* R: row packet lengths in bytes
     Threshold,         \* R: mysql.MaxPayloadLen = 2^24 - 1 (fits a TLC integer)
-    MaxBytes,          \* R: tiering: per-backend results larger than this are left out
+    MaxBytes,          \* R: tiering: per-shard results larger than this are left out
+    MaxTotalBytes,     \* R: tiering: cases whose results together exceed this are left out
     LimitInclusive,    \* R: TRUE = the reader fails when rows >= limit (as written); FALSE = rows > limit
     ShardIgnoresMore,  \* R: TRUE = the sharded path merges first chunks and ignores the more-rows flag
     LimitPerChunk,     \* R: TRUE = the row counter restarts with every streamed chunk
@@ -62,11 +63,13 @@ rvars == <<rcfg, rd, chunk, cbytes, more, bst, sent, outcome>>
 Modes  == {"unsharded", "shard1", "shard2", "shard4"}   \* shard4: two slices with two sub-table statements each
 Protos == {"text", "binary"}
 
+Plus(a, b) == a + b
 CountsOf(l) == IF l = 0 THEN UnlimCounts ELSE {l - 1, l, l + 1}
 CountVectors(l, m) == CASE m = "shard2" -> {<<a, b>> : a \in CountsOf(l), b \in CountsOf(l)}
                         [] m = "shard4" -> {<<a, b, c, d>> : a \in CountsOf(l), b \in CountsOf(l), c \in CountsOf(l), d \in CountsOf(l)}
                         [] OTHER -> {<<a>> : a \in CountsOf(l)}
 Fits(c) == /\ \A i \in 1..Len(c.n) : c.n[i] * c.rowlen <= MaxBytes
+           /\ FoldLeft(Plus, 0, c.n) * c.rowlen <= MaxTotalBytes
            /\ c.mode = "shard4" => c.limit \in 1..Shard4MaxLimit /\ c.rowlen \in Shard4RowLens
 
 ResultCases ==
@@ -80,7 +83,6 @@ Used == 1..NB
 Sharded == rcfg.mode # "unsharded"
 (* the slice (backend connection) a per-shard result comes from *)
 SliceOf(b) == IF rcfg.mode = "shard4" THEN (b + 1) \div 2 ELSE b
-Plus(a, b) == a + b
 
 (* what the property demands for a case c, independent of any design variant *)
 TotalOf(c) == FoldLeft(Plus, 0, c.n)
